@@ -4,27 +4,51 @@ import PqModel.WriteOwnLemmas
 
 Theorems about `PqModel.WriteOwn`, the MIRROR of the row-writer wrappers (`FilterRowWriter`,
 `TransformRowWriter`, `DedupeRowWriter`, `MultiRowWriter`) over the leaves `RowBuffer.WriteRows` and a
-recording `RowWriterFunc`, nested in any way. The SPEC side is `Keeps`: every backing array the
-caller owns holds, cell by cell over its whole capacity, what it held before the call.
+recording `RowWriterFunc`, nested in any way. The SPEC side is `Keeps` / `KeepsR`: every `[]Value`
+backing array and every `[]Row` backing array the caller owns holds, cell by cell over its whole
+capacity, what it held before the call.
 
-PARTIAL: `[]Row` header arrays, byte arrays behind values and the column-oriented leaves (`Writer`,
-`Buffer`, `SortingWriter`, column writers/buffers) are not in this model; they are covered by the
-L1 sweep of the real code (sub-check `writeside`) and by the source-level fact `callerWriteSites`. -/
+PARTIAL: byte arrays behind values and the column-oriented leaves (`Writer`, `Buffer`,
+`SortingWriter`, column writers/buffers) are not in this model; they are covered by the L1 sweep of
+the real code (sub-check `writeside`) and by the source-level fact `callerWriteSites`. -/
 namespace PqModel.Props.C16Write
 open PqModel.WriteOwn
 
 /-- **write_keeps_caller_memory.** For every writer object built from the mirrored wrappers and
     leaves (any nesting, no unrepaired filter node), every behaviour of the caller-supplied
     predicate / compare / transform functions that keeps their documented contract, every history
-    of `WriteRows` calls with any rows, from any state in which the headers the objects own point
-    to unprotected arrays (`Own`) and any memory in which the protected arrays exist (`Bounded`):
-    every protected array — the caller's rows are an instance — holds after the history exactly
-    the cells it held before, whatever errors the sinks returned on the way; and the invariant
-    holds again, so the statement extends over later histories on the same objects. -/
-theorem write_keeps_caller_memory (pv : Nat → Bool) (B : Beh) (sh : Shape) (hr : sh.repaired = true)
-    (batches : List (List Hdr)) (st : St) (m : Mem) (ho : Own pv st) (hb : Bounded pv m) :
-    (∀ a, pv a = true → (run B sh batches st m).2.1[a]? = m[a]?) ∧ Own pv (run B sh batches st m).1 :=
-  ⟨(run_safe pv B sh hr batches st m ho hb).1.2, (run_safe pv B sh hr batches st m ho hb).2⟩
+    of `WriteRows` calls with any `[]Row` slices (any offsets, lengths, capacities, overlapping or
+    not, the same slice sent again), from any state in which the arrays the objects own are not
+    protected and of the right kind (`Own`), any `[]Row` memory in which the rows the library owns
+    point to unprotected values (`SlotsOk`) and in which the protected arrays exist (`Bounded`,
+    `BoundedR`): every protected `[]Value` array and every protected `[]Row` array — the caller's
+    rows and the slices holding them are instances — holds after the history exactly the cells it
+    held before, whatever errors the sinks returned on the way; and the invariant holds again, so
+    the statement extends over later histories on the same objects. -/
+theorem write_keeps_caller_memory (pv pr : Nat → Bool) (B : Beh) (sh : Shape) (hr : sh.repaired = true)
+    (batches : List RHdr) (st : St) (m : Mem) (rm : RMem) (hg : Good pv pr st m rm) :
+    (∀ a, pv a = true → (run B sh batches st m rm).m[a]? = m[a]?) ∧
+    (∀ a, pr a = true → (run B sh batches st m rm).rm[a]? = rm[a]?) ∧
+    Good pv pr (run B sh batches st m rm).st (run B sh batches st m rm).m (run B sh batches st m rm).rm :=
+  ⟨(run_safe pv pr B sh hr batches st m rm hg).1.2, (run_safe pv pr B sh hr batches st m rm hg).2.1.2.2,
+   (run_safe pv pr B sh hr batches st m rm hg).2.2⟩
+
+/-- **caller_rows_show_same_values.** What the caller observes: a `[]Row` slice in a protected array
+    whose rows lie in protected `[]Value` arrays shows after the history the same rows with the same
+    values, in the same order, as before. -/
+theorem caller_rows_show_same_values (pv pr : Nat → Bool) (B : Beh) (sh : Shape) (hr : sh.repaired = true)
+    (batches : List RHdr) (st : St) (m : Mem) (rm : RMem) (hg : Good pv pr st m rm)
+    (h : RHdr) (hp : pr h.arr = true) (hv : ∀ x ∈ rowsOf rm h, pv x.arr = true) :
+    rowsOf (run B sh batches st m rm).rm h = rowsOf rm h ∧
+    (rowsOf (run B sh batches st m rm).rm h).map (row (run B sh batches st m rm).m) = (rowsOf rm h).map (row m) := by
+  have hw := write_keeps_caller_memory pv pr B sh hr batches st m rm hg
+  have h1 : rowsOf (run B sh batches st m rm).rm h = rowsOf rm h := by
+    simp only [rowsOf, cellsOf, List.getD_eq_getElem?_getD, hw.2.1 h.arr hp]
+  refine ⟨h1, ?_⟩
+  rw [h1]
+  apply List.map_congr_left
+  intro x hx
+  simp only [row, List.getD_eq_getElem?_getD, hw.1 x.arr (hv x hx)]
 
 /-- a concrete instance: filter over (transform over dedupe over a row buffer, and a sink) -/
 def exShape : Shape :=
@@ -38,46 +62,101 @@ def exBeh : Beh where
 /-- caller memory: array 0 is the dummy, arrays 1..3 are three rows of two values each with one
     spare cell of capacity -/
 def exMem : Mem := [[], [1, 7, 55], [2, 8, 55], [3, 9, 55]]
-def exRows : List Hdr := [⟨1, 0, 2, 3⟩, ⟨2, 0, 2, 3⟩, ⟨3, 0, 2, 3⟩]
+/-- `[]Row` memory: arrays 0 and 1 are the dummies, array 2 is the caller's `[]Row` of three rows
+    with one spare cell of capacity (holding a stale header) -/
+def exRMem : RMem := [(false, []), (true, []), (false, [⟨1, 0, 2, 3⟩, ⟨2, 0, 2, 3⟩, ⟨3, 0, 2, 3⟩, ⟨1, 1, 1, 1⟩])]
+def exRows : RHdr := ⟨2, 0, 3, 4⟩
 def exPv : Nat → Bool := fun a => a == 1 || a == 2 || a == 3
+def exPr : Nat → Bool := fun a => a == 2
 /-- freshly constructed writer objects: node ids 0..7 with empty fields -/
 def exSt : St := List.replicate 8 {}
 
 /-- the hypotheses of `write_keeps_caller_memory` are satisfiable: freshly constructed writer
-    objects (empty state) and the caller's three arrays protected -/
-example : exShape.repaired = true ∧ Own exPv exSt ∧ Bounded exPv exMem := by
-  refine ⟨by decide, ⟨by decide, fun ns h => ?_⟩, ?_⟩
-  · rw [List.eq_of_mem_replicate h]; exact NodeOwn.default (by decide)
+    objects (empty state), the caller's three `[]Value` arrays and its `[]Row` array protected -/
+example : exShape.repaired = true ∧ Good exPv exPr exSt exMem exRMem := by
+  have hd : NodeOwn exPv exPr exRMem {} :=
+    ⟨⟨by decide, by decide, by decide⟩, ⟨by decide, by decide⟩, by decide⟩
+  refine ⟨by decide, ⟨hd, fun ns h => ?_⟩, ?_, ?_, ?_⟩
+  · rw [List.eq_of_mem_replicate h]; exact hd
+  · intro a ha h hh
+    match a with
+    | 0 => exact absurd ha (by decide)
+    | 1 => simp [exRMem, cellsOf] at hh
+    | 2 => exact absurd ha (by decide)
+    | n + 3 => exact absurd ha (by simp [tagOf, exRMem])
   · intro a ha
     simp only [exPv, Bool.or_eq_true, beq_iff_eq] at ha
     simp only [exMem, List.length_cons, List.length_nil]
     omega
+  · intro a ha
+    simp only [exPr, beq_iff_eq] at ha
+    simp only [exRMem, List.length_cons, List.length_nil]
+    omega
 
 /-- ... and the run really does something: rows 1 and 3 reach the row buffer on both calls (the
     second one doubled by the transform) while the sink saw the first batch and failed on its second
-    call (which the filter reports as `0, nil`) -/
+    call (which the filter reports as `0, nil`); the caller's arrays of both kinds are as they were -/
 example :
-    let r := run exBeh exShape [exRows, exRows] exSt exMem
-    (r.1.node 3).slots.map (row r.2.1) = [[1, 7], [3, 9, 3, 9], [1, 7], [3, 9, 3, 9]] ∧
-    (r.1.node 4).got = [[[1, 7], [3, 9]]] ∧ r.2.2 = [(3, false), (0, false)] ∧ r.2.1.take 4 = exMem := by decide
+    let r := run exBeh exShape [exRows, exRows] exSt exMem exRMem
+    (rowsOf r.rm (r.st.node 3).slots).map (row r.m) = [[1, 7], [3, 9, 3, 9], [1, 7], [3, 9, 3, 9]] ∧
+    (r.st.node 4).got = [[[1, 7], [3, 9]]] ∧ r.rets = [(3, false), (0, false)] ∧ r.m.take 4 = exMem ∧
+    r.rm.take 3 = exRMem := by decide
 
 /-- **filter_as_it_was_modifies_caller_rows.** The filter writer as it stood before the repair
     (filter.go:52-58: `clearValues` over the rows kept in `f.rows`, which are the caller's) violates
     the property: the rows that passed the predicate are zeroed in the caller's memory after
     `WriteRows` returned `3, nil`. -/
 theorem filter_as_it_was_modifies_caller_rows :
-    let r := run exBeh (.filter true 0 0 (.sink 1 9)) [exRows] exSt exMem
-    r.2.2 = [(3, false)] ∧ (r.1.node 1).got = [[[1, 7], [3, 9]]] ∧
-    r.2.1 = [[], [0, 0, 55], [2, 8, 55], [0, 0, 55]] := by decide
+    let r := run exBeh (.filter true 0 0 (.sink 1 9)) [exRows] exSt exMem exRMem
+    r.rets = [(3, false)] ∧ (r.st.node 1).got = [[[1, 7], [3, 9]]] ∧
+    r.m = [[], [0, 0, 55], [2, 8, 55], [0, 0, 55]] := by decide
 
 /-- the same writer after the repair, same input: nothing changes -/
 theorem filter_repaired_keeps_caller_rows :
-    let r := run exBeh (.filter false 0 0 (.sink 1 9)) [exRows] exSt exMem
-    r.2.2 = [(3, false)] ∧ (r.1.node 1).got = [[[1, 7], [3, 9]]] ∧ r.2.1 = exMem := by decide
+    let r := run exBeh (.filter false 0 0 (.sink 1 9)) [exRows] exSt exMem exRMem
+    r.rets = [(3, false)] ∧ (r.st.node 1).got = [[[1, 7], [3, 9]]] ∧ r.m = exMem ∧ r.rm.take 3 = exRMem := by decide
 
 /-- **filter_swallows_sink_error** (observation, outside C16): the shadowed `err` of filter.go:74
     makes `WriteRows` return `0, nil` when the underlying writer failed. -/
 theorem filter_swallows_sink_error :
-    (run exBeh (.filter false 0 0 (.sink 1 0)) [exRows] exSt exMem).2.2 = [(0, false)] := by decide
+    (run exBeh (.filter false 0 0 (.sink 1 0)) [exRows] exSt exMem exRMem).rets = [(0, false)] := by decide
+
+/-! ## the `[]Row` argument itself: `DedupeRowWriter` -/
+
+/-- NOT the library — a what-if: `dedupeRowWriter.WriteRows` without its private copy `d.rows`,
+    `deduplicate` run on the argument (the change filed as `seeded/C16-4a`). It shows that the frame
+    theorem is a property of the mirrors and not of the modelling language. -/
+def dedupeWriteInPlace (B : Beh) (id k : Nat) (inner : Writer) (st : St) (m : Mem) (rm : RMem) (rows : RHdr) : Res :=
+  let dd := deduplicate B k m rm (st.node id).hdr rows
+  let st1 := st.set id { st.node id with hdr := dd.2.2.1 }
+  if dd.2.2.2 > 0 then
+    let r := inner st1 dd.1 dd.2.1 ⟨rows.arr, rows.off, dd.2.2.2, rows.cap⟩
+    if r.err then r else { r with n := rows.len }
+  else ⟨st1, dd.1, dd.2.1, rows.len, false⟩
+
+/-- three rows, the second a duplicate of the first (same head), followed by a different one -/
+def dupMem : Mem := [[], [1, 7, 55], [1, 8, 55], [3, 9, 55]]
+
+/-- **dedupe_in_place_would_permute_caller_rows.** Without the copy the unique rows are moved to
+    the front of the caller's `[]Row`: its second and third rows come back swapped, although every
+    `[]Value` array is intact and the sink received the right rows. -/
+theorem dedupe_in_place_would_permute_caller_rows :
+    let r := dedupeWriteInPlace exBeh 0 0 (sinkWrite 1 9) exSt dupMem exRMem exRows
+    (r.n, r.err) = (3, false) ∧ (r.st.node 1).got = [[[1, 7], [3, 9]]] ∧ r.m.take 4 = dupMem ∧
+    rowsOf r.rm exRows = [⟨1, 0, 2, 3⟩, ⟨3, 0, 2, 3⟩, ⟨2, 0, 2, 3⟩] := by decide
+
+/-- **dedupe_keeps_caller_rows.** The mirror of the library on the same input: same rows
+    delivered, the caller's `[]Row` untouched, and the private copy holds no reference afterwards -/
+theorem dedupe_keeps_caller_rows :
+    let r := run exBeh (.dedupe 0 0 (.sink 1 9)) [exRows] exSt dupMem exRMem
+    r.rets = [(3, false)] ∧ (r.st.node 1).got = [[[1, 7], [3, 9]]] ∧ r.m.take 4 = dupMem ∧ r.rm.take 3 = exRMem ∧
+    rowsOf r.rm (r.st.node 0).held = [Hdr.nil, Hdr.nil, Hdr.nil] := by decide
+
+/-- **multi_hands_every_writer_the_same_rows.** `MultiRowWriter(Dedupe(sink 1), sink 2)`: the second
+    writer receives the batch as the caller sent it (under the what-if above it would get the
+    permuted one) -/
+theorem multi_hands_every_writer_the_same_rows :
+    let r := run exBeh (.multi (.dedupe 0 0 (.sink 1 9)) (.sink 2 9)) [exRows] exSt dupMem exRMem
+    (r.st.node 1).got = [[[1, 7], [3, 9]]] ∧ (r.st.node 2).got = [[[1, 7], [1, 8], [3, 9]]] := by decide
 
 end PqModel.Props.C16Write
